@@ -1,6 +1,6 @@
 From Coq Require Import List Arith ZArith.
 Import ListNotations.
-From UJ Require Import Cache.Logical Cache.StaleSpec Cache.RunProofs Cache.HistoryProofs Cache.SettleProofs.
+From UJ Require Import Cache.Logical Cache.StaleSpec Cache.RunProofs Cache.HistoryProofs Cache.SettleProofs Cache.Minimal.
 
 (** The stale set of [_get_stale_nodes] is exactly the set of out-of-date nodes of the declarative
     specification [utd] (present; everything it is directly built from is up to date and not newer;
@@ -41,3 +41,36 @@ Theorem C05_idempotent :
             is_read reg sg' fresh None p n = false.
 Proof. exact repeated_run_does_nothing. Qed.
 Print Assumptions C05_idempotent.
+
+(** Minimal work, declaratively.  [wanted] is the least set containing the output, every direct predecessor of a stale
+    registered node, and every direct predecessor of a wanted node that has no value store; a node "computes"
+    ([active_decl]) iff it has no store and is wanted, or is a stale stored (non-source) node.
+    The function of a call runs exactly when the call computes ... *)
+Theorem C05_calls_minimal :
+  forall (reg : registry) (sg : sstate) (fresh : option Z) (output : option nat) (p : plan),
+  wf_plan p ->
+  forall (i : nat) (nd : node), nth_error p i = Some nd -> is_call nd = true ->
+  (is_exec reg sg fresh output p i = true <-> active_decl reg (is_stale reg sg fresh p) output p i).
+Proof. exact exec_iff. Qed.
+Print Assumptions C05_calls_minimal.
+
+(** ... a node without a value store is kept by the run exactly when it is wanted ... *)
+Theorem C05_unstored_minimal :
+  forall (reg : registry) (sg : sstate) (fresh : option Z) (output : option nat) (p : plan),
+  wf_plan p ->
+  forall i : nat, i < length p -> reg i = None ->
+  (pulls reg sg fresh output p i = true <-> wanted reg (is_stale reg sg fresh p) output p i).
+Proof. exact pulls_iff_wanted. Qed.
+Print Assumptions C05_unstored_minimal.
+
+(** ... and a stored value is read exactly when it is the output or an argument of a node that computes. *)
+Theorem C05_reads_minimal :
+  forall (reg : registry) (sg : sstate) (fresh : option Z) (output : option nat) (p : plan),
+  wf_plan p ->
+  forall (i : nat) (re : rentry), i < length p -> reg i = Some re ->
+  (is_read reg sg fresh output p i = true <->
+   output = Some i \/
+   (exists (c : nat) (nd : node), nth_error p c = Some nd /\ In i (args nd) /\
+                                  active_decl reg (is_stale reg sg fresh p) output p c)).
+Proof. exact read_iff. Qed.
+Print Assumptions C05_reads_minimal.
